@@ -205,6 +205,14 @@ func (n *Node) Vars() ([]string, map[string]Ty) {
 				order = append(order, x.Name)
 			}
 		}
+		if name, ok := remoteVar(x); ok {
+			// (crem "name"): the operator reads that variable through the context it is handed
+			if _, seen := m[name]; !seen {
+				m[name] = x.Ty
+				order = append(order, name)
+			}
+			return
+		}
 		for _, c := range x.Ch {
 			walk(c)
 		}
@@ -342,4 +350,15 @@ func treeEq(a, b *Node, canon bool) bool {
 		}
 	}
 	return true
+}
+
+// remoteVar: is n the call (crem "name") of the context-reading operator? It stands for the variable of that name: the
+// operator answers DNE while the context does not hold the variable and its value afterwards.
+func remoteVar(n *Node) (string, bool) {
+	if n.Kind == KOp && n.Name == "crem" && len(n.Ch) == 1 && n.Ch[0].Kind == KLit && n.Ch[0].Const == "" {
+		if s, ok := n.Ch[0].Val.(string); ok {
+			return s, true
+		}
+	}
+	return "", false
 }
